@@ -198,16 +198,11 @@ def rangeScan (idx : Index) (lo hi : Option Value) (incLo incHi : Bool) : List N
     else general
   | _, _ => general
 
-/-- `sort_by(partial_cmp.unwrap_or(Equal))` + `dedup` of the IN list: modelled as an insertion sort
-that treats incomparable values as equal, then removal of adjacent duplicates -/
+/-- the IN values are normalised, sorted in the total order of the keys and deduplicated
+(after the multi_lookup fix): insertion sort by `vcmp`, then removal of adjacent duplicates -/
 def insertVal (v : Value) : List Value → List Value
   | [] => [v]
-  | x :: xs =>
-    let isGt : Bool := match v, x with
-      | .null, _ => false
-      | _, .null => false
-      | a, b => Value.cmp? a b == some .gt
-    if isGt then x :: insertVal v xs else v :: x :: xs
+  | x :: xs => if vcmp v x == .gt then x :: insertVal v xs else v :: x :: xs
 
 def dedupAdj : List Value → List Value
   | [] => []
@@ -221,8 +216,8 @@ def lookupKey (idx : Index) (k : Key) : List Nat :=
 
 /-- `IndexData::multi_lookup` (InMemory) -/
 def multiLookup (idx : Index) (vals : List Value) : List Nat :=
-  let uniq := dedupAdj (vals.foldr insertVal [])
-  uniq.flatMap (fun v => lookupKey idx [normValue v])
+  let uniq := dedupAdj ((vals.map normValue).foldr insertVal [])
+  uniq.flatMap (fun v => lookupKey idx [v])
 
 /-! extraction of the range predicate from WHERE -/
 
